@@ -228,6 +228,17 @@ class C10(Prop):
                               "nprogeny": 5, "nself": 0},
                              {"select": [2], "protocol": "SelfCross", "xconfig": [[0]] * 7, "nmating": 1,
                               "nprogeny": 7, "nself": 1}]})
+        # very large populations one copy off fixation (and the all-fixed twin): a fixation test loosened to a
+        # tolerance (numpy.isclose: 1e-5) only shows when 1/(ploidy*n) <= 1e-5
+        big = {"kind": "big", "nv": 3, "ntrait": 2, "U": [[2, -1], [-3, 1], [1, 1]], "beta": [[1, -2], [4, 6]]}
+        for i, (n, k) in enumerate([(50000, 2), (65536, 2), (100000, 2), (200001, 2), (100001, 1), (25000, 4), (30001, 4)]):
+            objpath = "phased" if k == 2 else "unphased"
+            for path in (objpath, "ndarray"):       # one copy of allele 0 left at locus 0, everything else fixed
+                out.append(dict(big, n=n, ploidy=k, path=path, off="one0"))
+            out.append(dict(big, n=n, ploidy=k, path=(objpath, "ndarray")[i % 2], off=None))     # the all-fixed twin
+            if i in (0, 3, 4):                      # one copy of allele 1 at locus 1, everything else fixed
+                for path in (objpath, "ndarray"):
+                    out.append(dict(big, n=n, ploidy=k, path=path, off="one1"))
         # collapse clause for EVERY size 1..300 (quick); `exhaustive` extends it to 2000 (thorough)
         out.append({"kind": "sweep", "nmax": 300})
         return out
@@ -242,6 +253,13 @@ class C10(Prop):
         for i in range(n):
             if i < len(BOUNDARY_N):
                 out.append(self._static(rng, BOUNDARY_N[i], fixed_only=(i % 2 == 0)))
+                continue
+            if i in (len(BOUNDARY_N), len(BOUNDARY_N) + 1):     # two large populations of a random size per run
+                k = rng.choice([1, 2, 2, 4])
+                n = rng.randint(100000 // k + 1, 240000 // k)
+                out.append({"kind": "big", "nv": 3, "ntrait": 2, "U": [[2, -1], [-3, 1], [1, 1]],
+                            "beta": [[1, -2], [4, 6]], "n": n, "ploidy": k, "off": "one0",
+                            "path": rng.choice(["phased" if k == 2 else "unphased", "ndarray"])})
                 continue
             r = rng.random()
             if r < 0.45:
@@ -308,9 +326,60 @@ class C10(Prop):
                 bad.append([n, canon.enc(vals)])
         return {"bad": bad[:20], "nbad": len(bad)}
 
+    def _big(self, case):
+        """(n,3) population: locus 0 fixed at 1, locus 1 fixed at 0, locus 2 fixed at 1; with `off` = "one0" / "one1" a single
+        copy of the other allele survives at locus 0 / locus 1 and everything else is fixed, so the carrier's value
+        IS one of the limits and any loosening of the fixation test puts it outside.  The n rows of breeding values are
+        run-length compressed (distinct (dosage, gebv) rows + multiplicities) before they go to the Spec."""
+        gmod, ug, pg, mutil, prots = _mods()
+        gm = self._gm(case)
+        n, k = case["n"], case["ploidy"]
+        Z = numpy.zeros((n, 3), dtype="int8")
+        Z[:, 0] = k
+        Z[:, 2] = k
+        if case["off"] == "one0":
+            Z[n // 3, 0] = k - 1
+        elif case["off"] == "one1":
+            Z[(2 * n) // 3, 1] = 1
+        if case["path"] == "phased":
+            G = numpy.zeros((2, n, 3), dtype="int8")
+            G[:, :, 0] = 1
+            G[:, :, 2] = 1
+            if case["off"] == "one0":
+                G[1, n // 3, 0] = 0
+            elif case["off"] == "one1":
+                G[0, (2 * n) // 3, 1] = 1
+            obj = pg.DensePhasedGenotypeMatrix(G)
+            Zi = obj.mat_asformat("{0,1,2}")
+        elif case["path"] == "unphased":
+            obj = ug.DenseGenotypeMatrix(Z, ploidy=k)
+            Zi = Z
+        else:
+            obj, Zi = None, Z
+        if obj is None:
+            o = {"usl": gm.usl(Zi, ploidy=k), "lsl": gm.lsl(Zi, ploidy=k),
+                 "usl_un": gm.usl(Zi, ploidy=k, unscale=True), "lsl_un": gm.lsl(Zi, ploidy=k, unscale=True),
+                 "afreq": Zi.sum(0) / (k * n)}
+            gun = gm.gebv(Zi).unscale()
+        else:
+            o = {"usl": gm.usl(obj), "lsl": gm.lsl(obj), "usl_un": gm.usl(obj, unscale=True),
+                 "lsl_un": gm.lsl(obj, unscale=True), "afreq": obj.afreq()}
+            gun = gm.gebv(obj).unscale()
+        graw = gm.gebv_numpy(Zi)
+        nt_ = case["ntrait"]
+        comb = numpy.hstack([numpy.asarray(Zi, dtype=float), numpy.asarray(graw, dtype=float), numpy.asarray(gun, dtype=float)])
+        uniq, counts = numpy.unique(comb, axis=0, return_counts=True)
+        obs = {k_: canon.enc(numpy.asarray(v)) for k_, v in o.items()}
+        obs["gebv_raw"] = canon.enc(uniq[:, 3:3 + nt_])
+        obs["gebv_un"] = canon.enc(uniq[:, 3 + nt_:])
+        pop = {"nt": n, "ploidy": k, "rows": [[int(v) for v in r[:3]] for r in uniq], "mult": [int(c) for c in counts]}
+        return {"gens": [obs], "pop": pop, "ndistinct": int(len(uniq))}
+
     def run_impl(self, case):
         if case["kind"] == "sweep":
             return self._sweep(case)
+        if case["kind"] == "big":
+            return self._big(case)
         gmod, ug, pg, mutil, prots = _mods()
         gm = self._gm(case)
         nv = case["nv"]
@@ -360,7 +429,7 @@ class C10(Prop):
         if case["kind"] == "sweep":
             return []
         base = {"nv": case["nv"], "ntrait": case["ntrait"], "U": case["U"], "beta": case["beta"]}
-        pops = [case["pop"]] if case["kind"] == "static" else obs["pops"]
+        pops = [case["pop"]] if case["kind"] == "static" else [obs["pop"]] if case["kind"] == "big" else obs["pops"]
         reqs = [dict(base, op="c10.limits", pop=p) for p in pops]
         keys = ("usl", "lsl", "usl_un", "lsl_un", "gebv_raw", "gebv_un")
         reqs.append(dict(base, op="c10.spec", tol=canon.enc(TOL), pops=pops,
@@ -393,7 +462,7 @@ class C10(Prop):
         nsel = len(case["gens"]) if case["kind"] == "programme" else 0
         sel_ans = [a["ok"] for a in answers[ngen + 1:ngen + 1 + nsel]]
         mate_ans = [a["ok"] for a in answers[ngen + 1 + nsel:]]
-        if not all(m["valid"] for m in lim) and case["kind"] == "static":
+        if not all(m["valid"] for m in lim) and case["kind"] in ("static", "big"):
             raise RuntimeError("generator produced an invalid population")
         bad = []
         for gi, (m, o) in enumerate(zip(lim, obs["gens"])):
@@ -419,7 +488,9 @@ class C10(Prop):
                     k += 1
         corr = not bad
         # non-triviality
-        if case["kind"] == "static":
+        if case["kind"] == "big":
+            nontriv = bool(case["off"])
+        elif case["kind"] == "static":
             fr = [canon.dec(x) for x in obs["gens"][0]["afreq"]]
             nontriv = any(0 < x < 1 for x in fr) and any(Fraction(v) != 0 for r in case["U"] for v in r)
         else:
@@ -429,7 +500,7 @@ class C10(Prop):
             a0, a1 = alleles(obs["pops"][0]), alleles(obs["pops"][-1])
             nontriv = any(len(x) > len(y) for x, y in zip(a0, a1))
         detail = (f"spec_fail=[{spec['detail']}] model_vs_impl_diff={bad[:6]} kind={case['kind']} "
-                  f"sizes={[p['nt'] for p in (obs.get('pops') or [case['pop']])]} "
+                  f"sizes={[p['nt'] for p in (obs.get('pops') or [obs.get('pop') or case['pop']])]} "
                   f"usl={obs['gens'][0]['usl']} lsl={obs['gens'][0]['lsl']}")
         return {"corr": corr, "spec": bool(spec["ok"]), "nontrivial": bool(nontriv), "detail": detail}
 
@@ -438,6 +509,10 @@ class C10(Prop):
 
     def shrink(self, case):
         if case["kind"] == "sweep":
+            return
+        if case["kind"] == "big":
+            if case["n"] > 50000:
+                yield dict(case, n=max(50000, case["n"] // 2))
             return
         nv = case["nv"]
         if case["kind"] == "static":
@@ -527,6 +602,10 @@ class C10(Prop):
         lsl_noploidy = make_limit(ge1, gt0, ploidy_factor=False)
         lsl_ge0 = make_limit(ge1, lambda p: p >= 0.0)
         usl_loc_twice = make_limit(gt0, ge1, add_loc=2)
+        near1 = lambda p: numpy.isclose(p, 1.0)                  # tolerance instead of exact fixation
+        not0 = lambda p: ~numpy.isclose(p, 0.0)
+        usl_isclose = make_limit(not0, near1)
+        lsl_isclose = make_limit(near1, not0)
 
         def cast(out, dtype):
             if dtype is not None:
@@ -602,6 +681,9 @@ class C10(Prop):
             ("usl_where_branches_swapped", lambda: patch((GM, "usl_numpy", usl_swapped))),
             ("lsl_without_ploidy", lambda: patch((GM, "lsl_numpy", lsl_noploidy))),
             ("lsl_presence_test_ge_zero", lambda: patch((GM, "lsl_numpy", lsl_ge0))),
+            ("usl_lsl_fixation_test_isclose", lambda: patch((GM, "usl_numpy", usl_isclose), (GM, "lsl_numpy", lsl_isclose))),
+            ("usl_fixation_test_isclose", lambda: patch((GM, "usl_numpy", usl_isclose))),
+            ("lsl_fixation_test_isclose", lambda: patch((GM, "lsl_numpy", lsl_isclose))),
             ("usl_location_added_twice", lambda: patch((GM, "usl_numpy", usl_loc_twice))),
             ("afreq_reciprocal_form_D1", lambda: patch((UG, "afreq", u_afreq_recip), (PG, "afreq", p_afreq_recip))),
             ("usl_ndarray_path_reciprocal_form", lambda: patch((GM, "usl", usl_array_recip))),
